@@ -51,7 +51,7 @@ func c2ConfigNames(c *Ctx, rule string) {
 			}
 			got := "?"
 			if cell.V.F != nil {
-				got = cell.V.F.Name()
+				got = FNm(cell.V.F)
 			}
 			if got != want {
 				wrong = append(wrong, fmt.Sprintf("%q selects %s, documented: %s", in, got, want))
@@ -72,7 +72,7 @@ func c2ConfigNames(c *Ctx, rule string) {
 				try(v, t.def)
 			}
 		}
-		c.Check(len(wrong) == 0, rule, fn.String(), "names-select-documented-encoders", fn.Pos(), "evaluated on %d names (every documented one, the empty and unknown ones): each stores the documented built-in encoder into the receiver and returns nil: %v", n, wrong)
+		c.Check(len(wrong) == 0, rule, FStr(fn), "names-select-documented-encoders", fn.Pos(), "evaluated on %d names (every documented one, the empty and unknown ones): each stores the documented built-in encoder into the receiver and returns nil: %v", n, wrong)
 	}
 }
 
@@ -115,7 +115,7 @@ func c2Layouts(c *Ctx, rule string) {
 					return ""
 				}
 				switch {
-				case x.Call.IsInvoke() && x.Call.Method.Name() == "AppendTimeLayout" && len(x.Call.Args) == 2:
+				case x.Call.IsInvoke() && FNm(x.Call.Method) == "AppendTimeLayout" && len(x.Call.Args) == 2:
 					return "layout:" + layoutOf(st, x.Call.Args[1])
 				case IsCallTo(x, "(time.Time).Format") && len(x.Call.Args) == 2:
 					return "format:" + layoutOf(st, x.Call.Args[1])
@@ -143,7 +143,7 @@ func c2Layouts(c *Ctx, rule string) {
 			}
 			nL += k
 		}
-		c.Check(!trunc && nL >= 2 && len(bad) == 0, rule, fn.String(), "documented-layout", fn.Pos(), "on each of the %d paths (encoder with AppendTimeLayout / fallback through time.Format) the time is formatted once, with the layout %q: %v", len(seqs), want[n], bad)
+		c.Check(!trunc && nL >= 2 && len(bad) == 0, rule, FStr(fn), "documented-layout", fn.Pos(), "on each of the %d paths (encoder with AppendTimeLayout / fallback through time.Format) the time is formatted once, with the layout %q: %v", len(seqs), want[n], bad)
 	}
 	_ = types.Typ
 }
